@@ -20,35 +20,65 @@ Definition mk (q o i t m f b p ep es g sc bo c pr : bool) : pv :=
      v_ext_peer := ep; v_ext_sent := es; v_gater := g; v_score := if sc then Some 0 else None; v_backoff := if bo then Some 0 else None;
      v_counters := c; v_promises := if pr then Some 0 else None; v_blacklisted := false |}.
 
-Definition mon_l (prev_out : bool) (o : lobs) : nat :=
+(* what the two recorded findings leave behind (a mesh entry with its connection-manager protection; gater statistics)
+   is taken out before the final inventory is judged, so that any OTHER residue is reported as such *)
+Definition strip_findings (v : pv) : pv :=
+  {| v_queue := v_queue v; v_out := v_out v; v_in := v_in v; v_topics := v_topics v; v_mesh := false; v_fanout := v_fanout v;
+     v_bufs := v_bufs v; v_prot := v_prot v && negb (v_mesh v); v_ext_peer := v_ext_peer v; v_ext_sent := v_ext_sent v;
+     v_gater := false; v_score := v_score v; v_backoff := v_backoff v; v_counters := v_counters v; v_promises := v_promises v;
+     v_blacklisted := v_blacklisted v |}.
+(* codes 133 and 134 are the classes of two recorded findings; they are narrow on purpose:
+   133 = the peer is in a mesh without an outbound stream BECAUSE it was admitted (or kept) while no outbound stream
+         existed (a GRAFT on an inbound stream that outlives the outbound side);
+   135 = the peer was in a mesh WITH an outbound stream, the stream went away and the mesh entry stayed: a different
+         violation (the teardown of the outbound stream did not clean the mesh), never excused by the finding. *)
+Definition mon_l (prev : pv) (o : lobs) : list nat :=
   let v := lo_v o in
-  if v_mesh v && negb (v_out v) then 133      (* known finding class: in a mesh without an outbound stream *)
-  else if v_gater v && negb (v_out v || v_in v) then 134   (* known finding class: gater statistics for a peer without any stream *)
-  else if negb (depb v) then 132
-  else if lo_bl o && negb (Nat.eqb (lo_delivered o) 0) then 161        (* C16: nothing from / authored by a blacklisted peer is delivered *)
-  else if lo_apinow o && (v_queue v || v_out v || v_mesh v || v_fanout v) then 162   (* C16: at that moment gone from queue, peer lists, mesh, fanout *)
-  else if lo_bl o && lo_api o && negb (Nat.eqb (lo_sent o) 0) then 163  (* C16: nothing further is sent *)
-  else if lo_bl o && negb (lo_apinow o) && v_out v && negb prev_out then 164   (* C16: an outbound stream completing later is refused *)
-  else 0.
+  let prev_out := v_out prev in
+  (if v_mesh v && negb (v_out v) then [if v_mesh prev && v_out prev then 135 else 133] else [])
+  ++ (if v_gater v && negb (v_out v || v_in v) then [134] else [])   (* known finding class: gater statistics for a peer without any stream *)
+  ++ (if negb (depb (if v_mesh v && negb (v_out v) || v_gater v && negb (v_out v || v_in v) then strip_findings v else v)) then [132] else [])
+  ++ (if lo_bl o && negb (Nat.eqb (lo_delivered o) 0) then [161] else [])        (* C16: nothing from / authored by a blacklisted peer is delivered *)
+  (* C16: at the moment of BlacklistPeer the peer is gone from queue, peer lists, mesh, fanout.  165 = the class of a recorded
+     finding: the peer had NO outbound queue (so BlacklistPeer has nothing to tear down) and sits in a mesh only because its
+     GRAFT on its own stream was admitted without one - the root cause recorded as 133 *)
+  ++ (if lo_apinow o && (v_queue v || v_out v || v_mesh v || v_fanout v)
+      then [if negb (v_queue prev) && negb (v_out prev) && v_mesh prev && negb (v_queue v || v_out v || v_fanout v) then 165 else 162] else [])
+  ++ (if lo_bl o && lo_api o && negb (Nat.eqb (lo_sent o) 0) then [163] else [])  (* C16: nothing further is sent *)
+  ++ (if lo_bl o && negb (lo_apinow o) && v_out v && negb prev_out then [164] else []).   (* C16: an outbound stream completing later is refused *)
+Definition finding_class (c : nat) : bool := Nat.eqb c 133 || Nat.eqb c 134 || Nat.eqb c 165.
 
 Section ForProperty.
 Variable which : nat.
 Definition lkeep (c : nat) : bool := Nat.eqb which 0 || Nat.eqb (c / 10) which.
-Fixpoint lexec (prev_out : bool) (l : list lobs) (idx : nat) : option (nat * nat) :=
+(* the first failure that is NOT in a finding class wins; a finding-class failure is reported only when the history shows
+   nothing else (so that a recorded finding never hides a different violation later in the same history) *)
+Fixpoint lexec (prev : pv) (l : list lobs) (idx : nat) (fnd : option (nat * nat)) : option (nat * nat) :=
   match l with
-  | [] => None
-  | o :: l' => let c := mon_l prev_out o in
-               if negb (Nat.eqb c 0) && lkeep c then Some (idx, c) else lexec (v_out (lo_v o)) l' (S idx)
+  | [] => fnd
+  | o :: l' =>
+      let cs := filter lkeep (mon_l prev o) in
+      match filter (fun c => negb (finding_class c)) cs with
+      | c :: _ => Some (idx, c)
+      | [] => lexec (lo_v o) l' (S idx)
+                    (match fnd, cs with Some f, _ => Some f | None, c :: _ => Some (idx, c) | None, [] => None end)
+      end
   end.
+Definition pv0 : pv := mk false false false false false false false false false false false false false false false.
 Definition check_lcase_for (c : lcase) : verdict :=
-  match lexec false (lc_steps c) 0 with
-  | Some (i, code) => VMonFail i code
-  | None =>
-      if lkeep 131 && negb (reclaimed (lc_final c))
-      then (if v_mesh (lc_final c) && negb (v_out (lc_final c)) then VMonFail (length (lc_steps c)) 133
-            else if v_gater (lc_final c) && negb (v_out (lc_final c) || v_in (lc_final c)) then VMonFail (length (lc_steps c)) 134
-            else VMonFail (length (lc_steps c)) 131)
-      else VOk
+  let fin := lc_final c in
+  let final_v :=
+    if lkeep 131 && negb (reclaimed fin)
+    then (if negb (reclaimed (strip_findings fin)) then Some 131
+          else if v_mesh fin && negb (v_out fin) then Some 133
+          else if v_gater fin && negb (v_out fin || v_in fin) then Some 134
+          else Some 131)
+    else None in
+  match lexec pv0 (lc_steps c) 0 None with
+  | Some (i, code) =>
+      if finding_class code then match final_v with Some 131 => VMonFail (length (lc_steps c)) 131 | _ => VMonFail i code end
+      else VMonFail i code
+  | None => match final_v with Some code => VMonFail (length (lc_steps c)) code | None => VOk end
   end.
 End ForProperty.
 Definition check_lcase := check_lcase_for 0.
